@@ -46,7 +46,10 @@ Further ingredients
     the value plainly is an object: constructor call, literal, `f.read()`, str(...), ...);
   * os.walk with in-place pruning (`dirs[:] = [d for d in dirs if not excluded(root / d)]`, or a removal loop over a *copy*): no root
     has an excluded directory above it, and when the start path is known not to be excluded where the walk begins no root is excluded
-    itself.  A removal loop over the list being iterated is not a pruning (it skips the entry after each removed one) and is named
+    itself.  Pruning at the directory itself is accepted as well: `if excluded(root): dirs.clear()` (also
+    `del dirs[:]`, `dirs[:] = []`; usually followed by `continue`) reached on every run of the body in which the root is excluded, the
+    list not being touched otherwise - then nothing below an excluded directory is visited (the root itself still has to be tested
+    by the body).  Neither counts when the walk is materialised first (`sorted(os.walk(..))`).  A removal loop over the list being iterated is not a pruning (it skips the entry after each removed one) and is named
     in the VIOLATION.
 """
 
@@ -1181,13 +1184,84 @@ class Scan:
         fx = self.facts(g)
         for n in own_nodes(g.node):
             if isinstance(n, ast.For) and isinstance(n.target, (ast.Tuple, ast.List)) and n.target.elts and isinstance(n.target.elts[0], ast.Name) and n.target.elts[0].id in R and self.recursive_source(g, n.iter) is not None:
+                if not self._walk_lazy(g, n):
+                    note = f"the walk is materialised by `{norm(n.iter, 50)}` before the first directory is looked at: changing the list of sub-directories inside the loop cannot stop the descent any more"
+                    if note not in self.walk_notes:
+                        self.walk_notes.append(note)
+                    continue  # sorted(os.walk(..)) / list(..): the library has finished before the body runs, pruning has no effect
                 if rcs.walk_pruned(self, g, n, R):
                     # every root after the first is a sub-directory that survived the pruning; the first one is the start path:
                     # when that is known not to be excluded where the walk begins, no root is excluded either
                     if self._walk_start_clean(g, n):
                         return f_and([f_not(ANC), f_not(EXCL)])
                     return f_not(ANC)
+                if self._walk_emptied_when_excluded(g, n, R):
+                    # pruning at the directory itself: whenever the visited root is excluded its list of sub-directories is emptied,
+                    # so nothing below an excluded directory is ever visited (the root itself still has to be tested by the body)
+                    return f_not(ANC)
         return TRUE
+
+    def _walk_lazy(self, g: FuncInfo, loop: ast.For) -> bool:
+        it = loop.iter
+        if isinstance(it, ast.Name) and it.id not in self.facts(g).params:
+            bs = self.facts(g).bind.get(it.id, [])
+            if len(bs) == 1 and bs[0][0] == "val":
+                it = bs[0][1]
+        if isinstance(it, ast.Call) and isinstance(it.func, ast.Name) and it.func.id == "iter" and len(it.args) == 1:
+            it = it.args[0]
+        return rcs.is_recursive_listing(self.repo, g, it)
+
+    def _walk_emptied_when_excluded(self, g: FuncInfo, loop: ast.For, R: frozenset) -> bool:
+        """`if <excluded>(root): dirs.clear() / del dirs[:] / dirs[:] = []` (usually followed by `continue`): on every run of the loop
+        body in which the root is excluded the list os.walk descends by is emptied - and nothing else ever touches that list."""
+        if not (isinstance(loop.target, (ast.Tuple, ast.List)) and len(loop.target.elts) == 3 and isinstance(loop.target.elts[1], ast.Name)):
+            return False
+        dirs = loop.target.elts[1].id
+
+        def slice_all(t: ast.expr) -> bool:
+            return isinstance(t, ast.Subscript) and isinstance(t.value, ast.Name) and t.value.id == dirs and isinstance(t.slice, ast.Slice) and t.slice.lower is None and t.slice.upper is None and t.slice.step is None
+
+        def empties(st: ast.AST) -> bool:
+            if isinstance(st, ast.Assign) and len(st.targets) == 1 and slice_all(st.targets[0]) and rcs._is_empty(st.value):
+                return True
+            if isinstance(st, ast.Expr) and isinstance(st.value, ast.Call) and isinstance(st.value.func, ast.Attribute) and st.value.func.attr == "clear" and not st.value.args and isinstance(st.value.func.value, ast.Name) and st.value.func.value.id == dirs:
+                return True
+            return isinstance(st, ast.Delete) and len(st.targets) == 1 and slice_all(st.targets[0])
+
+        emptiers: list[ast.stmt] = []
+        body_nodes = [n for st in loop.body for n in ast.walk(st)]
+        inside: set[int] = set()
+        for n in body_nodes:
+            if isinstance(n, ast.stmt) and empties(n):
+                q, nested = parent(n), False
+                while q is not None and q is not loop:
+                    if isinstance(q, (ast.For, ast.AsyncFor, ast.While, ast.Try, ast.FunctionDef, ast.AsyncFunctionDef, ast.Lambda, ast.Match)):
+                        nested = True
+                    q = parent(q)
+                if nested:
+                    return False
+                emptiers.append(n)
+                inside |= {id(x) for x in ast.walk(n)}
+        if not emptiers:
+            return False
+        # nothing else may touch the list (a re-bound name would make `dirs.clear()` empty another list; additions would re-fill it);
+        # reading it (`for d in dirs`, `sorted(dirs)`) and re-ordering it in place are harmless
+        for n in body_nodes:
+            if id(n) in inside:
+                continue
+            if isinstance(n, ast.Name) and n.id == dirs:
+                par = parent(n)
+                if isinstance(n.ctx, (ast.Store, ast.Del)):
+                    return False
+                if isinstance(par, ast.Attribute) and par.value is n and isinstance(parent(par), ast.Call) and parent(par).func is par and par.attr in _MUTATORS and par.attr not in ("sort", "reverse"):
+                    return False
+                if isinstance(par, ast.Subscript) and par.value is n and isinstance(par.ctx, (ast.Store, ast.Del)):
+                    return False
+                if isinstance(par, ast.AugAssign) and par.target is n:
+                    return False
+        reached = f_or([self.guard(g, st, R) for st in emptiers])
+        # relative to what holds whenever the loop runs at all (tests before the loop, about other variables)
+        return implies(f_and([EXCL, ISDIR, self.guard(g, loop, None)]), reached, CONSTRAINTS)
 
     def _walk_start_clean(self, g: FuncInfo, loop: ast.For) -> bool:
         key = ("walkstart", g.fq, id(loop))
